@@ -161,9 +161,9 @@ def fn_cfg(name, N, rng, cplx):
     NFFT = int(rng.choice([N, N + 1, 2 * N, 64, 67]))
     NFFT = max(NFFT, N)
     if name == 'speriodogram':
-        return {'NFFT': NFFT, 'window': str(rng.choice(['hann', 'hamming', 'rectangular', 'blackman', 'bartlett']))}
+        return {'NFFT': NFFT, 'window': E.pick_window(rng, ['hann', 'hamming', 'rectangular', 'blackman', 'bartlett'])}
     if name == 'CORRELOGRAMPSD':
-        lag = int(rng.integers(2, N // 2)); return {'lag': lag, 'NFFT': max(NFFT, 2 * lag + 2), 'window': str(rng.choice(['hamming', 'hann', 'rectangular'])),
+        lag = int(rng.integers(2, N // 2)); return {'lag': lag, 'NFFT': max(NFFT, 2 * lag + 2), 'window': E.pick_window(rng, ['hamming', 'hann', 'rectangular']),
                                                     'norm': str(rng.choice(['biased', 'unbiased']))}
     if name in ('CORRELATION', 'xcorr'):
         return {'maxlags': int(rng.integers(0, N)), 'norm': str(rng.choice(['biased', 'unbiased', 'coeff'])) if name == 'xcorr' else
@@ -638,7 +638,7 @@ def run(ctx):
             NFFT = N
         x, kind = gen(rng, N, cplx)
         sbf = bool(rng.integers(0, 2)); fs = float(rng.choice([1.0, 7.5, 1024.0])); dt = [None, 'mean', True][int(rng.integers(0, 3))]
-        wname = str(rng.choice(['hamming', 'hann', 'rectangular']))
+        wname = E.pick_window(rng, ['hamming', 'hann', 'rectangular'])
         with warnings.catch_warnings():
             warnings.simplefilter('ignore')
             psd = speriodogram(x, NFFT=NFFT, detrend=dt, sampling=fs, scale_by_freq=sbf, window=wname)
